@@ -106,6 +106,34 @@ func (t *txnGen) appOps(n int) string {
 	return strings.Join(ops, ",")
 }
 
+// wipeOps: the application deletes every key of one of its DBIs (the whole key universe of the
+// generator), leaving the DBI itself in place.
+func (t *txnGen) wipeOps() string {
+	var cands []string
+	for _, n := range t.order {
+		if t.dbis[n]&0x04 == 0 {
+			cands = append(cands, n)
+		}
+	}
+	if len(cands) == 0 {
+		return t.appOps(2)
+	}
+	name := cands[t.r.Intn(len(cands))]
+	var keys [][]byte
+	if t.dbis[name]&0x08 != 0 {
+		for _, v := range []uint32{0, 1, 2, 255, 256, 1 << 31, 1<<32 - 1, 7} {
+			keys = append(keys, le32(v))
+		}
+	} else {
+		keys = [][]byte{[]byte("a"), []byte("b"), []byte("c"), []byte("ab"), {'a', 0}, {0xff}, []byte("k1"), []byte("k2")}
+	}
+	var ops []string
+	for _, k := range keys {
+		ops = append(ops, fmt.Sprintf("d:%s:%s", hx([]byte(name)), hx(k)))
+	}
+	return strings.Join(ops, ",")
+}
+
 func (t *txnGen) snapshot() string {
 	fv := []int{3, 3, 3, 3, 2, 1, 0, 4}[t.r.Intn(8)]
 	cv := []int{1, 1, 1, 0, 3, 4}[t.r.Intn(6)]
@@ -228,7 +256,11 @@ func genTxnScriptF(g *Gen, native, hack, pad bool, steps int, flavor string) []s
 	for s := 0; s < steps; s++ {
 		switch t.r.Intn(7) {
 		case 0, 1:
-			t.lines = append(t.lines, "env.app a "+t.appOps(1+t.r.Intn(4)))
+			if t.r.Intn(5) == 0 {
+				t.lines = append(t.lines, "env.app a "+t.wipeOps())
+			} else {
+				t.lines = append(t.lines, "env.app a "+t.appOps(1+t.r.Intn(4)))
+			}
 		case 2, 3, 4:
 			ls := []string{"T", "T", "T-1", "0", "T+1"}[t.r.Intn(5)]
 			switch {
